@@ -162,7 +162,7 @@ def run(ctx):
             ctx.ob("C04.syn.combine-each-leaf", f.key, "fold(first, |acc, next| acc.combine(next))", ok, "fold calls %d, combine%s, closure returns %s" % (len(folds), args, crets))
             if folds:
                 it = ctx.expr(f, folds[0][1]["args"][0])
-                ctx.ob("C04.syn.combine-in-loop", f.key, "combine repeated for every remaining leaf", "Iterator>::map(" in it and "flatten(a1)" in it, "fold over %s" % it[:160])
+                ctx.ob("C04.syn.combine-in-loop", f.key, "combine repeated for every remaining leaf", re.search(r"Iterator(>)?::map\(", it) is not None and "flatten(a1)" in it, "fold over %s" % it[:160])
         if comb:
             blk, t = comb[0]
             a1 = ctx.expr(f, t["args"][1])
